@@ -91,6 +91,7 @@ class Result:
     failed: list = field(default_factory=list)
     log: str = ""
     peak_rss_mb: int = 0
+    rss_gb: float = 0.0
     stubs: list = field(default_factory=list)
 
 
@@ -299,6 +300,8 @@ def _run_job(prop: str, crate_dir: Path, job: Job, idx: int) -> Result:
     jdir.mkdir(parents=True, exist_ok=True)
     logf = jdir / "kani.log"
     cmd = kani_cmd(job, jdir / "target")
+    if os.path.exists("/usr/bin/time"):
+        cmd = ["/usr/bin/time", "-f", "MAXRSS_KB=%M"] + cmd
     t0 = time.time()
     timed_out = False
     with open(logf, "w") as lf:
@@ -323,6 +326,10 @@ def _run_job(prop: str, crate_dir: Path, job: Job, idx: int) -> Result:
     text = logf.read_text(errors="replace")
     parse_kani_log(text, res)
     classify(text, rc, res, timed_out)
+    m = re.search(r"MAXRSS_KB=(\d+)", text)
+    if m:
+        res.rss_gb = round(int(m.group(1)) / 1e6, 1)
+        res.peak_rss_mb = int(m.group(1)) // 1000
     res.log = str(logf)
     # keep the log, drop the build output (100-300 MB per job)
     shutil.rmtree(jdir / "target", ignore_errors=True)
@@ -345,7 +352,7 @@ def run_jobs(prop: str, jobs: list, workers: int | None = None) -> list:
             results[i] = r
             log(
                 f"  [{r.status:7s}] {r.job.name:45s} {r.wall_s:7.1f}s symex={r.symex_s:.1f}s "
-                f"solver={r.solver_s:.1f}s covers={r.covers_sat}/{r.covers_total}"
+                f"solver={r.solver_s:.1f}s rss={getattr(r, 'rss_gb', 0)}G covers={r.covers_sat}/{r.covers_total}"
                 + (f" failed={[f['description'] for f in r.failed][:3]}" if r.failed else "")
             )
     return results
